@@ -47,7 +47,7 @@ PROPS = {
     },
     "C05": {
         "level": "exploration",
-        "steps": [("hv", "C05", {"_scale": 4.0}), ("hv", "C05", {"mode": "threads", "_jobs": 2, "_tag": "C05threads"}), ("py", "c05proc", "run"), ("py", "lsx", "run_c05"), ("py", "san", "tsan", "thorough_only")],
+        "steps": [("hv", "C05", {"_scale": 4.0}), ("hv", "C05", {"mode": "threads", "_jobs": 2, "_tag": "C05threads", "_hang_cpu": 240}), ("py", "c05proc", "run"), ("py", "lsx", "run_c05"), ("py", "san", "tsan", "thorough_only")],
         "rule": "histories of (set/unset rule | lint(doc, plain|markdown)) on one long-lived LintGroup or harper_wasm::Linter, documents assembled from a small clause pool so "
                 "that the chunk cache and the word cache are hit constantly (hook counters prove it), each step compared with a freshly built linter of the same configuration; the "
                 "same documents on 16 threads in different orders and one linter moved across threads vs a single-thread run; two processes byte-for-byte; harper-ls: didChange histories on one long-lived document (texts from a small clause pool, fixed dialect and rule switches), every publish "
@@ -107,8 +107,8 @@ PROPS = {
     },
     "C11": {
         "level": "exploration",
-        "steps": [("hv", "C11", {"_scale": 4.0}), ("py", "lsx", "run_c11")],
-        "rule": "(A) configuration algebra on random {on, off, unset, null, unknown-key} assignments: overlay law through fill_with_curated / merge_from / set_rule_enabled_if_unset, merge "
+        "steps": [("hv", "C11", {"_scale": 4.0}), ("py", "lsx", "run_c11"), ("hv", "cli", {"_scale": 0.6, "_tag": "C11cli"})],
+        "rule": "harper-cli: `lint --count` with no, one or two `--only-lint-with` rules (rules that are off by default among them) prints the number of lints the same selection produces in process; (A) configuration algebra on random {on, off, unset, null, unknown-key} assignments: overlay law through fill_with_curated / merge_from / set_rule_enabled_if_unset, merge "
                 "order, JSON round trip; (B) documents of 2-3 rule sentences: lints of every single rule computed once, then random configurations compared with the multiset sum of "
                 "the enabled singles, random 2-partitions, rule attribution through hook H1 (nothing disabled runs), unknown keys, and the JS-facing overlay path; (C) harper-ls: documents under a random dialect and `linters` map must be published with exactly the library's lints for "
                 "that configuration; "
